@@ -549,7 +549,7 @@ def run(ctx):
     # construction with keywords (oracle only: the model's constructor takes one mapping)
     for i in range(ctx.n(120, 3000)):
         data = {k: v for k, v in small_tree(rng).items()}
-        kw = {k: rng.choice([leaf_nodollar(rng), small_tree(rng, 2), [1, 2]]) for k in rng.sample(["a", "b", "c", "d", "sub", "x1", "zz"], rng.randrange(1, 4))}
+        kw = {k: rng.choice([leaf_nodollar(rng), small_tree(rng, 2), [1, 2]]) for k in rng.sample(["a", "b", "c", "d", "sub", "x1", "zz", "clean", "order", "key", "default", "other", "copy", "data", "name"], rng.randrange(1, 4))}
         c = {"kind": "ctor", "data": data, "kw": kw}
         r = oracle(c)
         if r:
